@@ -624,7 +624,6 @@ type verifWorld struct {
 
 	usedClosed  bool // Read/Write on a connection after its real Close
 	noDeadline  bool // Read/Write without a deadline
-	wrongDialTO bool
 	timeout     time.Duration
 }
 
@@ -660,9 +659,6 @@ type verifDialer struct{ w *verifWorld }
 
 func (d *verifDialer) Dial(addr string, timeout time.Duration) (net.Conn, error) {
 	w := d.w
-	if timeout != w.timeout {
-		w.wrongDialTO = true
-	}
 	if !w.setup {
 		n := w.dials
 		w.dials++
@@ -1029,7 +1025,6 @@ func verifCheckTraffic(w *verifWorld, k *verifCall) {
 	atts := w.attempts[k.firstAttempt:]
 	verifAssert("C20b-closed-connection-not-used", !w.usedClosed)
 	verifAssert("C20b-deadline-armed-before-io", !w.noDeadline)
-	verifAssert("C20b-dial-uses-client-timeout", !w.wrongDialTO)
 	if k.kind != verifKJoin {
 		max := verifMaxAttempts(k)
 		verifAssert("C20b-attempts-bounded", len(atts) <= max)
@@ -1295,7 +1290,7 @@ func VerifC20bSeq() {
 			addr = verifAddrOf(1)
 		}
 		retries := 0
-		if verifTier() == 1 && verifRetried(kind) {
+		if verifTier() == 1 && i < 2 && verifRetried(kind) {
 			retries = 2 * verifChoice(verifName("retries", i), 2)
 		}
 		k := verifNewCall(w, kind, addr, retries, 1-i%2) // credentials on calls 0 and 2, any on call 1
